@@ -15,6 +15,7 @@ func init() { register("C16", checkC16) }
 
 func checkC16(c *Ctx) {
 	r := c.R
+	r.Rule("R10.3", "(shared with C10) a layout or zone given as a New(...) option is applied whatever its position: every element of the argument list is offered to the option test")
 	r.Rule("R10.2", "(shared with C10) the layout in force is the logger's own: each With-form applies its setting to the new child and leaves the receiver alone")
 	r.Rule("R16.1", "zone decision: the decision function extracted from appendTimestamp formats z.UTC() exactly when utcTime == 2 or (utcTime == 0 and the LlocalTime flag is off), and z itself otherwise; SetUTCMode stores 2 for no argument/true and 1 for false")
 	r.Rule("R16.2", "layout decision: the layout is the logger's own when non-empty, else defaultLayouts[flags & Ldatetimeflags], else TimeNano; the table's keys are combinations of the three date/time flags only, and every layout that prints a time of day also prints the zone (otherwise the text cannot be parsed back to the instant)")
@@ -39,6 +40,7 @@ func checkC16(c *Ctx) {
 		instantFlow(c, p, m)
 		c09Pooled(c, p, m, "R16.4", feasibleModes)
 		c10WithSet(c, p, m)
+		optionsInOrder(c, p, "R10.3")
 	}
 	c.Floor["R16.1"] = 6
 	c.Floor["R16.2"] = 6
